@@ -19,7 +19,7 @@ class C22(Prop):
           "reference model's active path (X = current state, an ancestor, or top); child_state(P) "
           "returns the model's child of P on that path (the current state when P is current) and "
           "raises when P does not enclose the current state; the twins' handler action logs, "
-          "resting states and state_name/state_fn stay identical step by step and after every query. Non-trivial: >=1 query issued from a current "
+          "resting states, state_name/state_fn and the chart's instrumentation switches stay identical step by step and after every query. Non-trivial: >=1 query issued from a current "
           "state of depth >=3 whose argument does not enclose it; distinct = distinct case digests.")
   assumptions = [
     "the exception type of a failing child_state is not constrained (any Exception counts as 'fails')",
@@ -104,6 +104,13 @@ class C22(Prop):
               "twin says %r / %r" % (where, name_of(model.cur), q[0], name_of(q[1]), cq.state_name,
                                      getattr(cq.state_fn, "__name__", None), cp.state_name,
                                      getattr(cp.state_fn, "__name__", None)), "C22:query-changes-state-name")
+          # a query is an observation: the chart's own switches are what they were
+          for attr in ("instrumented", "live_spy", "live_trace"):
+            if getattr(cq, attr, None) != getattr(cp, attr, None):
+              raise PropertyViolation(
+                "after %s in %s: %s(%s) left %s = %r on the queried chart; the unqueried twin has %r" % (
+                  where, name_of(model.cur), q[0], name_of(q[1]), attr, getattr(cq, attr, None),
+                  getattr(cp, attr, None)), "C22:query-changes-chart")
           ok = got[0] == want[0] and (got[0] == "raised" or got[1] == want[1])
           if not ok:
             raise PropertyViolation(
